@@ -10,46 +10,92 @@ invariant `SInv`), `Lemmas/ServerFlow.lean`.
 namespace TarpcModel.Server
 open TarpcModel TarpcModel.Server.Flow
 
-/-- **C06 (a): never early.**  In every reachable state of every configuration, an execution whose
-abort flag is set has a reason: a `Cancel` for its request id was read from the transport
-(`cancelSeen`: an `Obs.tNext _ (.item (.cancel id _))` was observed), the request stream was dropped,
-or the clock has reached the request's deadline.  In particular the expiry path
-(`InFlightRequests::poll_expired`) never aborts a handler before its deadline: the timer is armed for
-`max (ceil_ms (now + (deadline - now))) wheel.elapsed ≥ deadline` and the timer wheel never yields an
-entry before its tick (`DelayQ.pollExpired_not_early`). -/
+/-- **C06 (a): never early — up to the timer clamp.**  In every reachable state of every
+configuration, an execution whose abort flag is set has a reason: a `Cancel` for its request id was
+read from the transport (`cancelSeen`: an `Obs.tNext _ (.item (.cancel id _))` was observed), the
+request stream was dropped, the clock has reached the request's deadline — or the *clamp fired*:
+the request was read at clock `t0` (`StartedAt`: the op of the script that created the execution ran
+at `t0`) with a deadline more than `MAX_DEADLINE_TIMEOUT` (`clampNs`, `Gen.serverTimerClampSecs`
+seconds — one year) beyond `t0`, so that its timer was armed with the clamped timeout, and that
+timeout has run out (`Clamped t0 deadline now`: the source clamps, `t0 + clampNs < deadline` and
+`t0 + clampNs ≤ now`).  In that last case `InFlightRequests::poll_expired` aborts the handler although
+`now < deadline` may hold: the accepted price of not panicking on far-away deadlines.
+
+For every other request the expiry path never aborts a handler before its deadline: the timer is armed
+for `max (ceil_ms (now + clampTimeout (deadline - now))) wheel.elapsed`, which is `≥ deadline` unless
+the clamp applies, and the timer wheel never yields an entry before its tick
+(`DelayQ.pollExpired_not_early`). -/
 theorem C06_never_early (limit : Option Nat) (respCap tcap : Nat) (coupled : Bool) (ops : List SOp)
     (c : Sys) (hc : c = ops.foldl applyOp (initSys limit respCap tcap coupled)) :
-    ∀ e ∈ c.s.execs, e.aborted = true → cancelSeen e.id c.s.obs ∨ c.s.dropped = true ∨ e.deadline ≤ c.now := by
+    ∀ e ∈ c.s.execs, e.aborted = true →
+      cancelSeen e.id c.s.obs ∨ c.s.dropped = true ∨ e.deadline ≤ c.now ∨
+      ∃ t0, StartedAt (initSys limit respCap tcap coupled) ops e.rid t0 ∧ Clamped t0 e.deadline c.now := by
   subst hc
   intro e he ha
-  have hinv := sinv_reach limit respCap tcap coupled ops
+  obtain ⟨born, hinv, hlink⟩ := sinv_reach true limit respCap tcap coupled ops
   have hns := ns_reach limit respCap tcap coupled ops
-  rcases hinv.why e he ha with h | h
+  rcases hinv.why rfl e he ha with h | h | h | h | h
   · rw [hns] at h; cases h
-  · exact h
+  · exact Or.inl h
+  · exact Or.inr (Or.inl h)
+  · exact Or.inr (Or.inr (Or.inl h))
+  · exact Or.inr (Or.inr (Or.inr ⟨born e.rid, hlink e.rid (hinv.t.execRid e he), h⟩))
+
+/-- **C06 (a) for deadlines within the clamp: never early, outright.**  If the request's deadline was
+at most `clampNs` (one year) away when the request was read — at whatever clock `t0` that was — an
+aborted execution has one of the three classical reasons; in particular the deadline has passed unless a
+`Cancel` was read or the stream was dropped. -/
+theorem C06_never_early_within_clamp (limit : Option Nat) (respCap tcap : Nat) (coupled : Bool) (ops : List SOp)
+    (c : Sys) (hc : c = ops.foldl applyOp (initSys limit respCap tcap coupled)) (e : Exec) (he : e ∈ c.s.execs)
+    (hnear : ∀ t0, StartedAt (initSys limit respCap tcap coupled) ops e.rid t0 → e.deadline ≤ t0 + clampNs)
+    (ha : e.aborted = true) :
+    cancelSeen e.id c.s.obs ∨ c.s.dropped = true ∨ e.deadline ≤ c.now := by
+  rcases C06_never_early limit respCap tcap coupled ops c hc e he ha with h | h | h | ⟨t0, hs, hcl⟩
+  · exact Or.inl h
+  · exact Or.inr (Or.inl h)
+  · exact Or.inr (Or.inr h)
+  · exact absurd (hnear t0 hs) (Nat.not_le.mpr hcl.2.1)
+
+/-- … and if the source does not clamp at all (`Gen.serverTimerClampSecs = 0`) the clamp disjunct is
+empty. -/
+theorem C06_never_early_unclamped (hno : Gen.serverTimerClampSecs = 0)
+    (limit : Option Nat) (respCap tcap : Nat) (coupled : Bool) (ops : List SOp)
+    (c : Sys) (hc : c = ops.foldl applyOp (initSys limit respCap tcap coupled)) :
+    ∀ e ∈ c.s.execs, e.aborted = true → cancelSeen e.id c.s.obs ∨ c.s.dropped = true ∨ e.deadline ≤ c.now := by
+  intro e he ha
+  rcases C06_never_early limit respCap tcap coupled ops c hc e he ha with h | h | h | ⟨t0, hs, hcl⟩
+  · exact Or.inl h
+  · exact Or.inr (Or.inl h)
+  · exact Or.inr (Or.inr h)
+  · exact absurd hno hcl.1
 
 /-- **C06 (a), observation form.**  From any reachable state, if polling execution `vid` at the current
 clock reports `handler vid dropped t` (the `Abortable` wrapper found the abort flag set and dropped
 the handler), then `t` is the current clock and the abort has a reason: a `Cancel` for the request's id
-was read, the request stream was dropped, or `t ≥ deadline`. -/
+was read, the request stream was dropped, `t ≥ deadline` — or the clamp fired (see `C06_never_early`). -/
 theorem C06_never_early_obs (limit : Option Nat) (respCap tcap : Nat) (coupled : Bool) (ops : List SOp)
     (c : Sys) (hc : c = ops.foldl applyOp (initSys limit respCap tcap coupled)) (vid v t : Nat)
     (h : Obs.handler v .dropped t ∈ (pollExec c.s vid c.now).obs) (hnew : Obs.handler v .dropped t ∉ c.s.obs) :
     v = vid ∧ t = c.now ∧ ∃ e, getExecVis c.s vid = some e ∧
-      (cancelSeen e.id c.s.obs ∨ c.s.dropped = true ∨ e.deadline ≤ t) := by
+      (cancelSeen e.id c.s.obs ∨ c.s.dropped = true ∨ e.deadline ≤ t ∨
+        ∃ t0, StartedAt (initSys limit respCap tcap coupled) ops e.rid t0 ∧ Clamped t0 e.deadline t) := by
   rcases pollExec_dropped_obs c.s vid c.now v t h with h' | ⟨hv, ht, e, hg, hab, hmem⟩
   · exact absurd h' hnew
   · exact ⟨hv, ht, e, hg, ht ▸ C06_never_early limit respCap tcap coupled ops c hc e hmem hab⟩
 
 /-- The one-step form for the expiry path alone: from a reachable state, every execution that
-`poll_expired` at the current clock newly aborts has `deadline ≤ now`. -/
+`poll_expired` at the current clock newly aborts has `deadline ≤ now` — or its timer was armed with the
+clamped timeout at the clock `born rid` at which the script created it, and the clamp has run out. -/
 theorem C06_expiry_never_early (limit : Option Nat) (respCap tcap : Nat) (coupled : Bool) (ops : List SOp)
     (c : Sys) (hc : c = ops.foldl applyOp (initSys limit respCap tcap coupled)) :
-    ExecsAb none c.s.execs (pollExpired c.s c.now).1.execs ∨
-    ∃ r, ExecsAb (some r) c.s.execs (pollExpired c.s c.now).1.execs ∧
-      ∀ ex ∈ c.s.execs, ex.rid = r → ex.deadline ≤ c.now := by
+    ∃ born : Nat → Nat,
+      (∀ rid, rid < c.s.execs.length → StartedAt (initSys limit respCap tcap coupled) ops rid (born rid)) ∧
+      (ExecsAb none c.s.execs (pollExpired c.s c.now).1.execs ∨
+       ∃ r, ExecsAb (some r) c.s.execs (pollExpired c.s c.now).1.execs ∧
+        ∀ ex ∈ c.s.execs, ex.rid = r → ex.deadline ≤ c.now ∨ Clamped (born ex.rid) ex.deadline c.now) := by
   subst hc
-  exact (sinv_reach limit respCap tcap coupled ops).t.expire_ab
+  obtain ⟨born, hinv, hlink⟩ := sinv_reach true limit respCap tcap coupled ops
+  exact ⟨born, hlink, hinv.t.expire_ab⟩
 
 /-- **C06 (b): an expiry touches nothing else.**  In any state, `poll_expired` either leaves the
 in-flight table and all executions alone, or it reports an expiration, removes exactly the table
@@ -138,6 +184,20 @@ example :
     c.s.execs.map (fun e => (e.deadline, e.aborted)) = [(1000000, true)] ∧ c.s.inflight = [] ∧
     c.s.obs.all (fun o => match o with | .tNext _ (.item (.cancel _ _)) => false | _ => true) = true ∧
     c.s.dropped = false := by
+  decide
+
+/-- **The clamp disjunct is inhabited (model-level witness).**  A request read at clock 0 with a deadline
+twice the clamp away: its timer is armed with the clamp (one year); once that has passed, a poll of the request
+stream aborts the handler and forgets the request although the deadline is as far ahead again — no `Cancel` was
+read and the stream is not dropped.  (`tarpc/src/server/in_flight_requests.rs`: `start_request` arms
+`deadline.time_until().min(MAX_DEADLINE_TIMEOUT)`, `poll_expired` aborts whatever expires.) -/
+theorem C06_clamp_fires_witness :
+    let c := [SOp.injectReq 1 (2 * Gen.serverTimerClampSecs * 1000000000) ⟨0, .given 0, false⟩ 0, .pollServer, .pollExec 0,
+      .advance (Gen.serverTimerClampSecs * 1000000000), .pollServer].foldl applyOp (initSys none 1 1 true)
+    c.now = Gen.serverTimerClampSecs * 1000000000 ∧
+    c.s.execs.map (fun e => (e.deadline, e.aborted)) = [(2 * Gen.serverTimerClampSecs * 1000000000, true)] ∧ c.s.inflight = [] ∧
+    c.s.obs.all (fun o => match o with | .tNext _ (.item (.cancel _ _)) => false | _ => true) = true ∧
+    c.s.dropped = false ∧ c.s.poisoned = false := by
   decide
 
 end TarpcModel.Server
